@@ -433,8 +433,13 @@ def main(chk):
     # every request handed a task id has its own queue entry: a return that is not the immediate execution must come after this call's own queue.append
     # and return the id that was appended (a request answered with another request's id is run once for two waiters; the second get_result fails)
     appended = [U(g.nodes[p_].ast.value.args[0]) for p_ in pub if g.nodes[p_].ast.value.args]
+    from verif_static import norm as N_
+    ldf_ = N_.local_defs([disp])
     for r in [x for x in ast.walk(disp) if isinstance(x, ast.Return) and x.value is not None]:
-        immediate = isinstance(r.value, ast.Call) and isinstance(r.value.func, ast.Subscript) and U(r.value.func.value) == 'self.dispatch_dict'
+        fv_ = r.value.func if isinstance(r.value, ast.Call) else None
+        if isinstance(fv_, ast.Name) and fv_.id in ldf_:
+            fv_ = ldf_[fv_.id]           # `handler = self.dispatch_dict[meth]; return handler(self, ...)`
+        immediate = isinstance(fv_, ast.Subscript) and U(fv_.value) == 'self.dispatch_dict'
         if immediate:
             continue
         rn = g.node_of(r)
